@@ -258,7 +258,23 @@ func (s *Star) SQL() string {
 }
 
 func (s *DotStar) SQL() string {
-	return s.Expr.SQL() + sqlDot(s.Expr) + "*" + sqlOpt(" ", s.Except, "") + sqlOpt(" ", s.Replace, "")
+	// The operand is printed without parentheses, so it is its rightmost operand that meets the dot.
+	last := s.Expr
+	for {
+		switch e := last.(type) {
+		case *BinaryExpr:
+			last = e.Right
+			continue
+		case *UnaryExpr:
+			last = e.Expr
+			continue
+		case *BetweenExpr:
+			last = e.RightEnd
+			continue
+		}
+		break
+	}
+	return s.Expr.SQL() + sqlDot(last) + "*" + sqlOpt(" ", s.Except, "") + sqlOpt(" ", s.Replace, "")
 }
 
 func (a *Alias) SQL() string {
